@@ -5,6 +5,8 @@ package main
 import (
 	"fmt"
 	"image"
+	"strings"
+	"unicode/utf8"
 
 	"github.com/makiuchi-d/gozxing"
 	"github.com/makiuchi-d/gozxing/datamatrix"
@@ -326,6 +328,27 @@ func c09QRSymbol(rng *fw.Rand, v int) (c09QRSym, bool) {
 		s.class = "utf8"
 		n := qrLenIn(rng, v, s.level, qrref.Byte)
 		s.text, _, _ = qrPayload(rng, qrref.Byte, n)
+		if rng.Intn(3) == 0 {
+			// unhinted everyday text: runs of accented Latin letters, kana, Cyrillic (whose UTF-8
+			// bytes also look like other character sets to a reader that has to guess)
+			s.class = "utf8-words"
+			words := []string{"äöü", "Grüße", "ñandú", "crème brûlée", "こんにちは", "カタカナ", "Привет", "ÀÉÎÕÜ", "ßøå", "日本語", "ﾊﾝｶｸ"}
+			var sb strings.Builder
+			for sb.Len() < minInt(n, 60) {
+				sb.WriteString(words[rng.Intn(len(words))])
+				if rng.Bool() {
+					sb.WriteByte(' ')
+				}
+			}
+			t := sb.String()
+			for len(t) > n || !utf8.ValidString(t) {
+				t = t[:len(t)-1]
+			}
+			if t == "" {
+				t = "a"
+			}
+			s.text = t
+		}
 	default:
 		// ISO-8859-1 bytes under the charset hint (ECI header: 12 bits = 2 byte-units of room)
 		s.class = "finder-like-bytes"
